@@ -263,6 +263,19 @@ def helper_names_in(mod, repo) -> frozenset:
         m2 = sys.modules.get(getattr(v, "__module__", "") or "")
         if m2 is not None and getattr(m2, "__name__", "").startswith("props.") and getattr(m2, "__file__", None):
             files.add(m2.__file__)
+    # rule functions imported lazily inside a rule (`from props.C10 import r4_...`)
+    todo = list(files)
+    seen = set()
+    while todo:
+        fl = todo.pop()
+        if fl in seen:
+            continue
+        seen.add(fl)
+        for m in re.findall(r"props\.(C\d\d)", Path(fl).read_text()):
+            other = Path(fl).parent / f"{m}.py"
+            if other.exists() and str(other) not in seen:
+                todo.append(str(other))
+    files = seen
     words = set()
     for fl in files:
         words |= set(re.findall(r"\b_[A-Za-z0-9_]+\b", Path(fl).read_text()))
